@@ -895,6 +895,7 @@ func ruleC03LastWins(c *Checker) {
 		}
 		sl := p.backSlice(r.Results[0], 0)
 		var exclV, domV []ssa.Value
+		var exclSt []*ssa.Store
 		for v := range sl {
 			if st, ok := v.(*ssa.FieldAddr); ok {
 				_ = st
@@ -907,6 +908,7 @@ func ruleC03LastWins(c *Checker) {
 					switch fieldOf(fa).Name() {
 					case "Excluded":
 						exclV = append(exclV, st.Val)
+						exclSt = append(exclSt, st)
 					case "Dominating":
 						domV = append(domV, st.Val)
 					}
@@ -925,7 +927,28 @@ func ruleC03LastWins(c *Checker) {
 			}
 			return false
 		}
-		c.check(len(exclV) > 0 && dep(exclV, "negated"), R, name, "Excluded depends on negated", p.Pos(r.Pos()), "a matching '!' rule re-includes", "the Excluded result no longer depends on the matching rule's negation flag")
+		// ... or by control: the constant true is stored on one edge of a test of the flag, and not on the other
+		byControl := false
+		for _, st := range exclSt {
+			for _, b := range ex.Blocks {
+				ifi, ok := b.Instrs[len(b.Instrs)-1].(*ssa.If)
+				if !ok {
+					continue
+				}
+				tests := false
+				for x := range p.backSlice(ifi.Cond, 0) {
+					if fa, ok := x.(*ssa.FieldAddr); ok {
+						if f := fieldOf(fa); f != nil && f.Name() == "negated" {
+							tests = true
+						}
+					}
+				}
+				if tests && (guarded(st.Block(), []Edge{{b, 0}}) != guarded(st.Block(), []Edge{{b, 1}})) {
+					byControl = true
+				}
+			}
+		}
+		c.check(len(exclV) > 0 && (dep(exclV, "negated") || byControl), R, name, "Excluded depends on negated", p.Pos(r.Pos()), "a matching '!' rule re-includes", "the Excluded result no longer depends on the matching rule's negation flag")
 		c.check(len(domV) > 0 && dep(domV, "negationsAfter"), R, name, "Dominating depends on negationsAfter", p.Pos(r.Pos()), "Dominating is withheld when later negations exist", "Dominating no longer depends on whether negations follow the matching rule")
 		// ... and on the matching rule selecting a whole subtree: only a pattern ending in "**" (a trailing
 		// slash is spelled that way after parsing) matches everything below what it matched; "logs/*" also
